@@ -282,7 +282,7 @@ func estimate(p plan, steps map[int]int) float64 {
 			total += float64(steps[b])
 		}
 		if p.spec.Scenario == ScCopyBefore || p.spec.Scenario == ScCopyDuring {
-			total += 165
+			total += 260
 		}
 		if p.spec.Scenario == ScCopyOnly {
 			total += 85
